@@ -268,7 +268,8 @@ def _check_links(record, genes: dict, regions_complete: bool, former_candidates:
         if parent is not None and id(parent) not in cand_ids:
             if former_candidates.get(id(parent)) is parent or not cands:
                 raise Violation("stale_parent", {"child": "protocluster", "location": _plain(_loc(proto)),
-                                                 "parent": str(parent), "parent_was_in_record_before": bool(cands)})
+                                                 "parent": str(parent), "candidates_in_record": len(cands),
+                                                 "parent_was_in_record_before": former_candidates.get(id(parent)) is parent})
             # a candidate that candidate formation built and then discarded: how candidates are formed is C05
             labels.append("unjudged_protocluster_parent_is_a_discarded_candidate")
         elif parent is not None and all(p is not proto for p in parent.protoclusters):
